@@ -150,7 +150,7 @@ def main(run, args):
     # ---- model evaluation
     mism = []
     coq_cases = 0
-    if proofs_ok:
+    if model_ready(proofs_ok):
         hc = list(hash_cases.items())
         hc.sort(key=lambda x: len(x[0][0]))
         # byte budget for the in-Coq hash recomputation
